@@ -23,6 +23,7 @@ func TestProp(t *testing.T) {
 	}
 	ctx := harness.NewCtx(p)
 	defer ctx.Finish()
+	curCtx = ctx
 
 	if path := os.Getenv("VERIF_REPLAY"); path != "" {
 		cs, err := harness.LoadCase(path)
